@@ -53,6 +53,8 @@ try:
             res["checks"][c]["replay_head"] = open(rp[-1][7:]).read()[:1200]
 finally:
     sh("git -C /repo checkout -- .")
+    # the evidence written while the change was applied describes the mutated tree: restore the committed one
+    sh("git -C /verif checkout -- evidence/")
 dst = os.path.join(ROOT, "seeded", sid)
 shutil.rmtree(dst, ignore_errors=True)
 os.makedirs(dst)
